@@ -39,6 +39,11 @@ def plan(seed: int, tier: str, n_files: int):
         two = rng.random() < 0.34 and i + 1 < len(pool)
         fl = pool[i : i + (2 if two else 1)]
         i += len(fl)
+        if two and rng.random() < 0.5:
+            # the second file is the first one with the final state of its EventType line in another order
+            fl = [fl[0], ampworld.permuted_twin(fl[0], rng)]
+        elif rng.random() < 0.2:
+            fl = [ampworld.permuted_twin(f, rng) for f in fl]
         if two:
             order = [[fi, ri] for fi in range(2) for ri in rng.sample(range(6), 4)]
         else:
